@@ -61,6 +61,8 @@ class Scenario:
         self.driver_errors: list = []
         self.handles_at_end = 0
         self.threads = ThreadRegistry()
+        self.busy_stopping: set = set()
+        self.deferred_inject: set = set()
 
     def fail(self, kind: str, msg: str) -> None:
         if self.problem is None:
@@ -117,6 +119,11 @@ class Scenario:
 
     def inject(self, idx: int, loop: vloop.VLoop) -> None:
         if idx in self.close_tasks or idx >= len(self.pcs):
+            return
+        if idx in self.busy_stopping:
+            # the harness itself is stopping this connection's DTLS transports right now (peer-dtls-closes); two overlapping
+            # stop() calls on one transport are not what this check is about - the close() follows when that is done
+            self.deferred_inject.add(idx)
             return
         self.close_tasks[idx] = asyncio.Task(self.do_close(idx, loop), loop=loop, eager_start=True, name=f"harness-close-{idx}")
 
@@ -181,15 +188,23 @@ class Scenario:
                     self.classes.add("peer-goes-away")
                     self.inject(1, loop)
                     await asyncio.sleep(0)
-                elif ex[0] == "peer-dtls-closes" and at >= 5:
+                elif ex[0] == "peer-dtls-closes" and at >= 5 and self.pcs.index(pc) not in self.close_tasks:
                     # the other side vanishes the way a browser tab does: a DTLS close_notify and nothing else (no RTCP BYE,
                     # no SCTP shutdown)
                     self.classes.add("peer-dtls-closes")
-                    for t in list(getattr(pc, "_RTCPeerConnection__dtlsTransports", [])):
-                        try:
-                            await t.stop()
-                        except Exception:
-                            pass
+                    idx = self.pcs.index(pc)
+                    self.busy_stopping.add(idx)
+                    try:
+                        for t in list(getattr(pc, "_RTCPeerConnection__dtlsTransports", [])):
+                            try:
+                                await t.stop()
+                            except Exception:
+                                pass
+                    finally:
+                        self.busy_stopping.discard(idx)
+                    if idx in self.deferred_inject:
+                        self.deferred_inject.discard(idx)
+                        self.inject(idx, loop)
                     await asyncio.sleep(0.05)
                 elif ex[0] == "reoffer" and (at >= 5 or pc is self.pcs[0]) and pc.signalingState in ("stable", "have-local-offer") \
                         and self.pcs.index(pc) not in self.close_tasks:
